@@ -316,7 +316,7 @@ jose_jws_ver_io(jose_cfg_t *cfg, const json_t *jws, const json_t *sig,
         }
 
         halg = kalg;
-    } else if (kalg && strcmp(halg, kalg) < 0) {
+    } else if (kalg && strcmp(halg, kalg) != 0) {
         jose_cfg_err(cfg, JOSE_CFG_ERR_JWK_MISMATCH,
                      "Signing algorithm mismatch (%s != %s)", halg, kalg);
         return NULL;
